@@ -182,7 +182,7 @@ def collect(prop, tier, runs, t0, deadline_s):
                                       max(5.0, deadline_s - (time.time() - t0)))))
     res = C.run_many(cmds)
     cov = dict(states=0, transitions=0, traces_validated_against_impl=0, terminal_checks=0, fault_runs=0,
-               foreign_pruned=0, crashes=0, configs=[], samples=[], ops_dropped_by_probe=dropped)
+               foreign_seen=0, crashes=0, configs=[], samples=[], ops_dropped_by_probe=dropped)
     violations = []
     all_fix = True
     all_done = True
@@ -201,7 +201,7 @@ def collect(prop, tier, runs, t0, deadline_s):
         cov["traces_validated_against_impl"] += d["transitions"] + d["fault_runs"] + d["terminal_checks"]
         cov["terminal_checks"] += d["terminal_checks"]
         cov["fault_runs"] += d["fault_runs"]
-        cov["foreign_pruned"] += d["foreign_pruned"]
+        cov["foreign_seen"] += d["foreign_seen"]
         cov["crashes"] += d["crashes"]
         distinct_obs += d["distinct_observations"]
         all_fix = all_fix and d["fixpoint"]
